@@ -139,9 +139,11 @@ def _isinstance_classes(ctx, fi, test, var):
     for sub in ast.walk(test):
         if isinstance(sub, ast.Call) and isinstance(sub.func, ast.Name) and sub.func.id == 'isinstance' and \
                 len(sub.args) == 2 and isinstance(sub.args[0], ast.Name) and sub.args[0].id == var:
-            t = ctx.t.expr_type(sub.args[1], fi)
-            if t and t[0] == 'type':
-                out |= set(type_classes(t[1]))
+            targets = sub.args[1].elts if isinstance(sub.args[1], ast.Tuple) else [sub.args[1]]
+            for tg in targets:
+                t = ctx.t.expr_type(tg, fi)
+                if t and t[0] == 'type':
+                    out |= set(type_classes(t[1]))
     return out
 
 
